@@ -35,6 +35,7 @@ class ResQuery(Query):
         self.native_shim = True
         self.native_defines = ['VF_PRESTART=%d' % nthr]
         self.mem_weight = 4 if nthr >= 3 else 2
+        self.cost = K * (sum(len(p_) for p_ in programs) + (3 if checker else 0))   # scheduling estimate: long queries start first
         self.extra_cbmc = ['--sat-solver', 'cadical', '--slice-formula']   # measured: 275 s vs 329 s (MiniSat, no slicing) on live3_R_R_W
 
 
